@@ -240,3 +240,43 @@ class Spies:
     def take(self):
         log, self.log = self.log, []
         return log
+
+
+# -- dereference tracer (diagnostic, never decides) ---------------------------
+
+class DerefTracer:
+    """Wraps EvaluatorContext.eval_cell (outside its cache) and RangeNode.eval:
+    which (formula cell, context sheet, requested address) were dereferenced."""
+
+    def __init__(self, keep=False):
+        self.requests = 0
+        self.cross_sheet = 0
+        self.range_evals = 0
+        self.keep = keep
+        self.trace = []
+
+    def install(self):
+        from xlcalculator import evaluator, ast_nodes
+        tr = self
+        orig = evaluator.EvaluatorContext.eval_cell
+
+        def eval_cell(ctx_, addr):
+            tr.requests += 1
+            if '!' in addr and addr.split('!')[0] != ctx_.refsheet:
+                tr.cross_sheet += 1
+            if tr.keep and len(tr.trace) < 10000:
+                tr.trace.append((ctx_.ref, ctx_.sheet, addr))
+            return orig(ctx_, addr)
+        evaluator.EvaluatorContext.eval_cell = eval_cell
+        orig_r = ast_nodes.RangeNode.eval
+
+        def range_eval(node, context):
+            if ':' in str(node.tvalue):
+                tr.range_evals += 1
+            return orig_r(node, context)
+        ast_nodes.RangeNode.eval = range_eval
+        return self
+
+    def take(self):
+        t, self.trace = self.trace, []
+        return t
